@@ -32,7 +32,7 @@ import sys
 assert sys.version_info >= (3, 0)  # Bomb out if not running Python3
 
 
-import operator, time, traceback, uuid, fnmatch, opentracing
+import operator, re, time, traceback, uuid, fnmatch, opentracing
 
 from datetime import datetime, timezone, timedelta
 from aioprometheus import Counter, Histogram
@@ -2231,11 +2231,16 @@ class StateEngine(object):
                     return next_if(variable, operator.le, value, str)
 
                 def asl_choice_StringMatches(value):
-                    # https://docs.python.org/3/library/fnmatch.html
-                    # Change the \ escape to fnmatch [seq] escape and also
-                    # escape [ to allow things like a literal [hello]
-                    value = value.replace("[", "[[]").replace("\\*", "[*]")
-                    if fnmatch.fnmatch(variable, value):
+                    # In ASL only * is a wildcard (zero or more characters), an
+                    # escaped \* is a literal * and an escaped \\ a literal \, no
+                    # other character (e.g. ? [ and ]) has any special meaning.
+                    if not isinstance(variable, str) or not isinstance(value, str):
+                        return None
+                    tokens = re.findall(r"\\[*\\]|.", value, re.DOTALL)
+                    regex = "".join(
+                        ".*" if t == "*" else re.escape(t[-1]) for t in tokens
+                    )
+                    if re.fullmatch(regex, variable, re.DOTALL):
                         return next
 
                 def asl_choice_TimestampEquals(value):
